@@ -200,8 +200,12 @@ def main():
             {"name": "E1", "path": "vmc/engine.py", "serves_properties": sorted(CHECKS), "kind_free_text": "stateless deviation-bounded explorer over harness choice points (hand-written, Python)"},
             {"name": "E2", "path": "vmc/props/c14.py + vmc/canon.py", "serves_properties": ["C14"], "kind_free_text": "explicit-state BFS over replayed operation histories with generic canonical state hashing"},
             {"name": "E3", "path": "vmc/sched.py", "serves_properties": ["C19"], "kind_free_text": "controlled thread scheduler: sys.monitoring LINE events at shared-state lines, per-thread semaphore baton, dynamic write profile + AST scan"},
-            {"name": "E4", "path": "vmc/setorder.py", "serves_properties": ["C04", "C12"], "kind_free_text": "import-time AST transform owning set iteration order and id() as explorer choice points"},
-            {"name": "E5", "path": "vmc/gmodel.py", "serves_properties": ["C01", "C03", "C04", "C08", "C18"], "kind_free_text": "grammar-walk generator of binding models as real dataclasses in synthetic modules"},
+            {"name": "E4", "path": "vmc/setorder.py", "serves_properties": ["C04", "C12"], "kind_free_text": "import-time AST transform owning set iteration order (incl. results of set algebra) and id() as explorer choice points"},
+            {"name": "E5", "path": "vmc/gmodel.py", "serves_properties": ["C01", "C03", "C04", "C08", "C09", "C10", "C15", "C18"], "kind_free_text": "grammar-walk generator of binding models as real dataclasses in synthetic modules"},
+            {"name": "G-tree", "path": "vmc/gtree.py", "serves_properties": ["C07", "C08", "C11"], "kind_free_text": "generator of generic XML trees (explicit-prefix writer, self-checked with expat + libxml2)"},
+            {"name": "G-xsd", "path": "vmc/gxsd.py", "serves_properties": ["C02", "C13"], "kind_free_text": "schema AST + renderer + instance enumerator; every schema and instance validated by libxml2"},
+            {"name": "G-dtd", "path": "vmc/gdtd.py", "serves_properties": ["C16"], "kind_free_text": "DTD AST + renderer + instance enumerator; every DTD and instance validated by libxml2"},
+            {"name": "G-wsdl", "path": "vmc/gwsdl.py", "serves_properties": ["C17"], "kind_free_text": "WSDL 1.1 AST + renderer + payload enumerator + independent reading of the prescribed envelopes"},
         ],
         "checks": checks,
         "not_applicable": [{"property_id": p, "reason": NOT_YET} for p in ALL if p not in CHECKS],
